@@ -807,8 +807,17 @@ impl BigDecimal {
             return self.clone();
         }
 
+        // the magnitude is what gets rounded, so for negative numbers the
+        // directed modes must be mirrored: rounding -0.33.. towards negative
+        // infinity (Floor) means rounding 0.33.. up (Ceiling)
+        let magnitude_ctx = match (self.sign(), ctx.rounding_mode()) {
+            (Sign::Minus, RoundingMode::Floor) => ctx.with_rounding_mode(RoundingMode::Ceiling),
+            (Sign::Minus, RoundingMode::Ceiling) => ctx.with_rounding_mode(RoundingMode::Floor),
+            _ => ctx.clone(),
+        };
+
         let uint = self.int_val.magnitude();
-        let result = arithmetic::inverse::impl_inverse_uint_scale(uint, self.scale, ctx);
+        let result = arithmetic::inverse::impl_inverse_uint_scale(uint, self.scale, &magnitude_ctx);
 
         // always copy sign
         result.take_with_sign(self.sign())
